@@ -129,6 +129,14 @@ func (x *restoreX) stmt(s ast.Stmt, g gctx) {
 				return
 			}
 		}
+		// a small same-package helper that only registers nodes in the maps is its body
+		if body, undo := c.ExpandCall([]ast.Stmt{s}); len(body) > 0 && body[0] != ast.Stmt(s) && onlyMapStores(body) {
+			x.stmts(body, g)
+			undo()
+			return
+		} else {
+			undo()
+		}
 		x.other(s, g)
 	case *ast.IfStmt:
 		if s.Init != nil {
